@@ -372,7 +372,8 @@ class WarnCatcher:
 
         class H(self.logging.Handler):
             def emit(self, record):
-                if "Unable to fully reduce" in record.getMessage():
+                # any warning the library logs while simplifying (its wording is not part of any property)
+                if record.levelno >= outer.logging.WARNING:
                     outer.count += 1
         self.h = H()
         self.root = self.logging.getLogger()
